@@ -1034,7 +1034,6 @@ def correspondence(ctx) -> CorrResult:
     res = CorrResult()
     n_models = ctx.scale(70, 2000)
     per_model = ctx.scale(3, 4)
-    per_shard = 25
     items = []
     dist = {"method": {}, "terminal": {}, "initial_guess": {}, "kind": {}, "frames": {}, "plan": 0, "log_variables": 0,
             "status": {}, "simulate_raised": 0, "first_order_compared": 0, "residual_checks": 0,
@@ -1082,6 +1081,7 @@ def correspondence(ctx) -> CorrResult:
                     "status": [str(s) for s in r["info"]["exit_status"]]} for c, r in items[:3]]
     import time as _t
     t_sim = _t.time() - ctx.t0
+    per_shard = max(6, min(25, -(-len(items) // core.NCPU)))
     shards = [items[i:i + per_shard] for i in range(0, len(items), per_shard)]
     texts = [shard_text(sh) for sh in shards]
     t_a = _t.time()
